@@ -1,7 +1,7 @@
 (** C12 — Shard placement is a fixed, process-independent function of the key
     hashes.  Statements only; proofs in Proofs/HashProofs.v, Gen/Agree.v. *)
 From Coq Require Import List NArith String Ascii Bool.
-From Kismet Require Import Gen.Constants Pure.Pinned Gen.Agree Pure.Sha256 Pure.Hash Proofs.HashProofs.
+From Kismet Require Import Gen.Constants Pure.Pinned Gen.Agree Pure.Sha256 Pure.Hash Proofs.HashProofs Ops.Ops.
 Import ListNotations.
 Local Open Scope N_scope.
 
@@ -51,6 +51,19 @@ Qed.
 
 Theorem C12_names_injective : forall a b, a < TWO64 -> b < TWO64 -> format_id a = format_id b -> a = b.
 Proof. exact format_id_injective. Qed.
+
+(** The builders choose the layout from the shard count alone: with n >= 2 the directory is
+    sharded whatever the capacity (so that every handle declared with n shards looks where any
+    other stores), and a reader's choice is the writer's. *)
+Theorem C12_layout_depends_on_the_count_only : forall dir n total,
+  2 <= n -> builder_writer dir n total = FSharded dir n total /\
+            builder_reader dir n = FSharded dir n 18446744073709551615.
+Proof.
+  intros dir n total Hn. unfold builder_reader, builder_writer.
+  destruct (N.leb_spec n 1) as [H|H]; [|split; reflexivity].
+  exfalso. apply (N.lt_irrefl 1). apply (N.lt_le_trans 1 2 1); [reflexivity|].
+  apply (N.le_trans _ n); assumption.
+Qed.
 
 Example C12_example :
   shard_ids 7 9 4 = (2, 3) /\ shard_ids 7 9 8 = (4, 6) /\ shard_ids 1 2 4 = (0, 2) /\
